@@ -115,11 +115,13 @@ type Random struct {
 	Seed   int64   `json:"seed"`
 	Max    int     `json:"max"`
 	PWrite float64 `json:"pwrite"` // probability that a write fails (partial or not)
-	PDial  float64 `json:"pdial"`
-	PStore float64 `json:"pstore"`
-	PBreak float64 `json:"pbreak"` // probability per step that the live connection breaks
-	PStall float64 `json:"pstall"`
-	Faults int     `json:"faults"` // fault budget
+	// PRecFail: probability that a write which starts with a PUBREC fails (the broker then repeats the PUBLISH)
+	PRecFail float64 `json:"precfail,omitempty"`
+	PDial    float64 `json:"pdial"`
+	PStore   float64 `json:"pstore"`
+	PBreak   float64 `json:"pbreak"` // probability per step that the live connection breaks
+	PStall   float64 `json:"pstall"`
+	Faults   int     `json:"faults"` // fault budget
 	// Inbound messages the broker publishes to the client at random moments.
 	Inbound []Inbound `json:"inbound"`
 	// Hostile byte strings the broker sends at random moments (property C13).
@@ -288,6 +290,7 @@ func (x *Exec) emit(e sim.Ev) {
 		def("phase", "")
 	case "begin":
 		def("frame", false)
+		def("nopause", false)
 	case "final", "epilogue":
 		def("reset", false)
 	}
@@ -391,7 +394,7 @@ func Run(b *Behaviour) (events []sim.Ev) {
 		}
 		return n
 	}
-	x.emit(sim.Ev{"e": "begin", "id": b.ID, "amax": norm(b.Cfg.AMax), "emax": norm(b.Cfg.EMax), "clean": b.Cfg.Clean, "readbuf": b.Cfg.ReadBuf})
+	x.emit(sim.Ev{"e": "begin", "id": b.ID, "amax": norm(b.Cfg.AMax), "emax": norm(b.Cfg.EMax), "clean": b.Cfg.Clean, "readbuf": b.Cfg.ReadBuf, "nopause": b.Cfg.NoPause})
 	x.gated.Store(len(b.Steps) > 0 || b.Random != nil)
 	if !x.gated.Load() {
 		x.W.S.Free()
@@ -517,17 +520,21 @@ func Run(b *Behaviour) (events []sim.Ev) {
 	}
 	if len(b.WaitFor) > 0 {
 		x.W.S.Free()
-		deadline := time.Now().Add(60 * time.Second)
-		for time.Now().Before(deadline) {
-			all := true
+		deadline := time.Now().Add(300 * time.Second)
+		all := false
+		for !all && time.Now().Before(deadline) {
+			all = true
 			for _, n := range b.WaitFor {
 				all = all && x.W.S.Done(n)
 			}
-			if all {
-				break
+			if !all {
+				x.pollExchanges()
+				time.Sleep(2 * time.Millisecond)
 			}
-			x.pollExchanges()
-			time.Sleep(2 * time.Millisecond)
+		}
+		if !all {
+			// the long history did not get to its end (an overloaded machine): the run says nothing
+			x.emit(sim.Ev{"e": "harness-incomplete", "what": "waitfor"})
 		}
 	}
 	for _, t := range b.Mute {
@@ -763,7 +770,7 @@ func panicSite() string {
 func firstFrame(stack string) string {
 	lines := strings.Split(stack, "\n")
 	for i, l := range lines {
-		if strings.HasPrefix(l, "github.com/pascaldekloe/mqtt") && i+1 < len(lines) {
+		if strings.HasPrefix(l, "github.com/pascaldekloe/mqtt") && !strings.Contains(l, "erifYield") && i+1 < len(lines) {
 			loc := strings.TrimSpace(lines[i+1])
 			if j := strings.Index(loc, " +"); j > 0 {
 				loc = loc[:j]
@@ -1332,26 +1339,44 @@ func (x *Exec) stuckSite(method string) string {
 	return ""
 }
 
-func (x *Exec) reportStuck(phase string) {
+// readerWhere names the library function the read routine is in ("" = none, or waiting for input in conn.Read).
+func (x *Exec) readerWhere() (string, []string) {
 	var stacks []string
-	for _, g := range sched.Stacks("pascaldekloe/mqtt.(*Client)") {
-		if !x.baseline[goroutineID(g)] {
-			stacks = append(stacks, g)
+	where := ""
+	// (free mode: a goroutine that is passing through a hook is running, not parked)
+	for _, g := range sched.StacksAll("pascaldekloe/mqtt.(*Client)") {
+		if x.baseline[goroutineID(g)] {
+			continue
+		}
+		stacks = append(stacks, g)
+		if strings.Contains(g, "runner.(*Exec).reader") && !strings.Contains(g, "sim.(*Conn).Read") {
+			if j := strings.Index(g, "mqtt.(*Client)."); j >= 0 {
+				where = g[j+len("mqtt.(*Client)."):]
+				if k := strings.IndexAny(where, "(\n"); k > 0 {
+					where = where[:k]
+				}
+			}
+		}
+	}
+	return where, stacks
+}
+
+func (x *Exec) reportStuck(phase string) {
+	where, stacks := x.readerWhere()
+	if phase == "drain" && where != "" {
+		// not a passing moment: the read routine is found in the same function, away from conn.Read, three times
+		for i := 0; i < 2 && where != ""; i++ {
+			time.Sleep(3 * time.Millisecond)
+			if w, _ := x.readerWhere(); w != where {
+				where = ""
+			}
 		}
 	}
 	live := x.W.S.Names()
 	for _, n := range live {
-		if phase == "drain" && strings.HasPrefix(n, "rd") {
+		if phase == "drain" && strings.HasPrefix(n, "rd") && where == "" {
 			// the read routine legitimately waits for input inside conn.Read (or at its call gate)
-			busy := false
-			for _, g := range stacks {
-				if strings.Contains(g, "runner.(*Exec).reader") && !strings.Contains(g, "sim.(*Conn).Read") {
-					busy = true
-				}
-			}
-			if !busy {
-				continue
-			}
+			continue
 		}
 		site := ""
 		method := ""
@@ -1530,7 +1555,8 @@ func (x *Exec) randomRun(r *Random) {
 		if faults > 0 {
 			switch g.Kind {
 			case "write":
-				if rng.Float64() < r.PWrite {
+				hd, _ := g.Info["head"].(int)
+				if rng.Float64() < r.PWrite || (hd>>4 == 5 && rng.Float64() < r.PRecFail) {
 					faults--
 					o = sched.Outcome{Kind: "err", N: rng.Intn(g.Info["n"].(int))} // never the whole buffer together with an error
 					if g.Info["armed"].(bool) && rng.Intn(2) == 0 {
